@@ -177,12 +177,7 @@ theorem sigParams_split (acc : List SigParam) (kw : Bool) (P : List Str) (C : St
     simp only [List.cons_append, sigParams, hp, Bool.false_eq_true, if_false, List.map_cons, paramsFold]
     split <;> exact ih' _ _
 
-/-! ## `"AsyncIterator" in …` -/
-
-theorem txtHasSub_cons_ne (c : Char) (s : Str) (h : c ≠ 'A') :
-    txtHasSub kAsyncIterator (c :: s) = txtHasSub kAsyncIterator s := by
-  have : (('A' : Char) == c) = false := by simpa using fun e => h e.symm
-  simp [txtHasSub, startsWith, kAsyncIterator, List.isPrefixOf, this]
+/-! ## `returns_async_iterator(…)` -/
 
 theorem isPrefixOf_append_singleton (p x : Str) (c : Char) (hc : c ∉ p) :
     p.isPrefixOf (x ++ [c]) = p.isPrefixOf x := by
@@ -199,15 +194,18 @@ theorem isPrefixOf_append_singleton (p x : Str) (c : Char) (hc : c ∉ p) :
       simp only [List.cons_append, List.isPrefixOf_cons_cons]
       rw [ih x (fun h => hc (List.mem_cons_of_mem _ h))]
 
-theorem txtHasSub_append_colon (s : Str) :
-    txtHasSub kAsyncIterator (s ++ [':']) = txtHasSub kAsyncIterator s := by
-  have hc : ':' ∉ kAsyncIterator := by decide
-  induction s with
-  | nil => decide
-  | cons c s ih =>
-    have := isPrefixOf_append_singleton kAsyncIterator (c :: s) ':' hc
-    simp only [List.cons_append] at this
-    simp only [List.cons_append, txtHasSub, startsWith, this, ih]
+/-- On a line `) -> R:` the decision is "`R` starts with `AsyncIterator[`". -/
+theorem returnsAsyncIter_arrowLine (r : Str) :
+    returnsAsyncIter (')' :: (kArrow ++ r ++ [':'])) = startsWith r kAsyncIteratorBr := by
+  have hc : ':' ∉ kAsyncIteratorBr := by decide
+  have hsw : startsWith (')' :: (kArrow ++ r ++ [':'])) kCloseArrow = true := by
+    simp [startsWith, kArrow, kCloseArrow, List.isPrefixOf]
+  have hdrop : (')' :: (kArrow ++ r ++ [':'])).drop kCloseArrow.length = r ++ [':'] := by
+    simp [kArrow, kCloseArrow]
+  unfold returnsAsyncIter
+  simp only [kArrow, List.cons_append, List.nil_append] at hsw hdrop ⊢
+  simp only [txtSplitAt1, hsw, if_true, hdrop]
+  exact isPrefixOf_append_singleton kAsyncIteratorBr r ':' hc
 
 /-! ## The closing line -/
 
@@ -226,14 +224,13 @@ theorem parseSigClose_stub (x : Str) :
     simp [kStubEnd, List.take_append, List.take_of_length_le]
   simp only [parseSigClose, endsStub_append, if_true, h1, endsStub_colon, Bool.false_eq_true, if_false]
 
-/-- Whether the return annotation mentions `AsyncIterator`. -/
-def retMentionsAsyncIter : Option Str → Bool
-  | some r => txtHasSub kAsyncIterator r
+/-- Whether the return annotation IS `AsyncIterator[...]`. -/
+def retIsAsyncIter : Option Str → Bool
+  | some r => startsWith r kAsyncIteratorBr
   | none => false
 
-theorem txtHasSub_closeLine (x : Str) (r : Option Str) (h : parseSigClose (')' :: (x ++ [':'])) = some r) :
-    txtHasSub kAsyncIterator (')' :: (x ++ [':'])) = retMentionsAsyncIter r := by
-  rw [txtHasSub_cons_ne _ _ (by decide), txtHasSub_append_colon]
+theorem returnsAsyncIter_closeLine (x : Str) (r : Option Str) (h : parseSigClose (')' :: (x ++ [':'])) = some r) :
+    returnsAsyncIter (')' :: (x ++ [':'])) = retIsAsyncIter r := by
   have hends : endsWith (x ++ [':']) [':'] = true := (endsWith_singleton_iff _ _).2 ⟨x, rfl⟩
   simp only [parseSigClose, endsStub_colon, Bool.false_eq_true, if_false, hends, if_true,
     List.dropLast_concat] at h
@@ -249,11 +246,9 @@ theorem txtHasSub_closeLine (x : Str) (r : Option Str) (h : parseSigClose (')' :
       have hx' : x = kArrow ++ x.drop kArrow.length := by
         have := List.isPrefixOf_iff_prefix.1 ha
         exact (List.prefix_iff_eq_append.1 this).symm
-      rw [retMentionsAsyncIter]
+      rw [retIsAsyncIter]
       conv => lhs; rw [hx']
-      simp only [kArrow, List.cons_append, List.nil_append]
-      rw [txtHasSub_cons_ne _ _ (by decide), txtHasSub_cons_ne _ _ (by decide), txtHasSub_cons_ne _ _ (by decide),
-        txtHasSub_cons_ne _ _ (by decide)]
+      exact returnsAsyncIter_arrowLine _
     · simp [ha] at h
 
 /-! ## The header line -/
@@ -352,7 +347,7 @@ theorem sigGo_protoEmit (s name : Str) (P : List Str) (x : Str)
     (hP1 : ∀ p ∈ P, Stripped p) (hP2 : ∀ p ∈ P, startsWith p [')'] = false) :
     sigGo false (protoEmit (s :: P ++ [')' :: (x ++ [':'])])) =
       (parseSigClose (')' :: (x ++ [':']))).map
-        (fun r => ⟨!(retMentionsAsyncIter r), name, (paramsFold [] false P).1.reverse, r, true⟩) := by
+        (fun r => ⟨!(retIsAsyncIter r), name, (paramsFold [] false P).1.reverse, r, true⟩) := by
   have hlast : (s :: P ++ [')' :: (x ++ [':'])]).getLast? = some (')' :: (x ++ [':'])) := by
     rw [← List.cons_append, List.getLast?_concat]
   have hinit : (s :: P ++ [')' :: (x ++ [':'])]).dropLast = s :: P := by
@@ -369,7 +364,7 @@ theorem sigGo_protoEmit (s name : Str) (P : List Str) (x : Str)
   simp only [hlast, Option.getD_some, hinit, hends, if_true, hdl, hasync, Bool.and_true]
   cases hpc : parseSigClose (')' :: (x ++ [':'])) with
   | none =>
-    by_cases hg : txtHasSub kAsyncIterator (')' :: (x ++ [':'])) = true
+    by_cases hg : returnsAsyncIter (')' :: (x ++ [':'])) = true
     · simp only [hg, if_true, List.cons_append]
       have := sigGo_header (kDef ++ s.drop kAsyncDef.length) name false P (')' :: (x ++ kStubEnd)) [[]]
         (stripped_dropAsync s hs hasync hne) (isOvlLine_dropAsync _)
@@ -382,8 +377,8 @@ theorem sigGo_protoEmit (s name : Str) (P : List Str) (x : Str)
       simp only [List.cons_append] at this
       rw [this, parseSigClose_stub, hpc]; rfl
   | some r =>
-    have hsub := txtHasSub_closeLine x r hpc
-    by_cases hg : txtHasSub kAsyncIterator (')' :: (x ++ [':'])) = true
+    have hsub := returnsAsyncIter_closeLine x r hpc
+    by_cases hg : returnsAsyncIter (')' :: (x ++ [':'])) = true
     · simp only [hg, if_true, List.cons_append]
       have := sigGo_header (kDef ++ s.drop kAsyncDef.length) name false P (')' :: (x ++ kStubEnd)) [[]]
         (stripped_dropAsync s hs hasync hne) (isOvlLine_dropAsync _)
@@ -397,15 +392,15 @@ theorem sigGo_protoEmit (s name : Str) (P : List Str) (x : Str)
         (by simp [startsWith, List.isPrefixOf])
       simp only [List.cons_append] at this
       rw [this, parseSigClose_stub, hpc]
-      have hg' : txtHasSub kAsyncIterator (')' :: (x ++ [':'])) = false := by simpa using hg
+      have hg' : returnsAsyncIter (')' :: (x ++ [':'])) = false := by simpa using hg
       rw [hg'] at hsub
       simp [← hsub]
 
 /-! ## `sigOf (protoStub m)` -/
 
-/-- The documented convention: `async` is dropped when the return annotation mentions `AsyncIterator`. -/
+/-- The documented convention: `async` is dropped when the return annotation is `AsyncIterator[...]`. -/
 def adjAsync (sg : MethodSig) : MethodSig :=
-  { sg with isAsync := sg.isAsync && !retMentionsAsyncIter sg.ret }
+  { sg with isAsync := sg.isAsync && !retIsAsyncIter sg.ret }
 
 theorem sigGo_false_nil_cons (X : List Str) : sigGo false ([] :: X) = sigGo false X := by
   simp [sigGo, stripWs_nil, isOvlLine, startsWith, kOverload, parseDefHeader, kAsyncDef, kDef]
@@ -552,8 +547,8 @@ theorem bodyAfterSig_split (Q : List Str) (C : Str) (rest : List Str)
     simp only [List.cons_append, bodyAfterSig, hq, Bool.false_eq_true, if_false,
       ih (fun p hp => hQ p (List.mem_cons_of_mem _ hp))]
 
-/-- The stripped signature lines of the final `def` (what `_transform_to_mock` joins to look for
-    `AsyncIterator`); `true` = inside an `@overload` block. -/
+/-- The stripped signature lines of the final `def` (`_transform_to_mock` passes the last one, the line closing the
+    signature, to `returns_async_iterator`); `true` = inside an `@overload` block. -/
 def sigLinesGo : Bool → List Str → List Str
   | _, [] => []
   | true, l :: ls => if endsStub (stripWs l) then sigLinesGo false ls else sigLinesGo true ls
@@ -564,7 +559,7 @@ def sigLinesGo : Bool → List Str → List Str
     else sigLinesGo false ls
 
 /-- `is_async_generator` of `_transform_to_mock` for a well-formed method text. -/
-def mockYields (m : List Str) : Bool := txtHasSub kAsyncIterator (joinWith [' '] (sigLinesGo false m))
+def mockYields (m : List Str) : Bool := returnsAsyncIter ((sigLinesGo false m).getLast?.getD [])
 
 theorem bodyGo_false_nil_cons (X : List Str) : bodyGo false ([] :: X) = bodyGo false X := by
   simp [bodyGo, stripWs_nil, isOvlLine, startsWith, kOverload, parseDefHeader, kAsyncDef, kDef]
@@ -575,7 +570,7 @@ theorem isDefHdr_of_async (s : Str) (h : isAsyncHdr s = true) : (isAsyncHdr s ||
 theorem mock_go (cls meth : Str) (m : List Str) : ∀ b : Bool, wfGo b m = true →
     sigGo b (mockGo cls meth (if b then .ovl else .scan) m) = sigGo b m ∧
     bodyGo b (mockGo cls meth (if b then .ovl else .scan) m) =
-      mockBody cls meth (txtHasSub kAsyncIterator (joinWith [' '] (sigLinesGo b m))) := by
+      mockBody cls meth (returnsAsyncIter ((sigLinesGo b m).getLast?.getD [])) := by
   induction m with
   | nil => intro b h; simp [wfGo] at h
   | cons l ls ih =>
@@ -644,7 +639,7 @@ theorem mock_go (cls meth : Str) (m : List Str) : ∀ b : Bool, wfGo b m = true 
             simp only [sigLinesGo, ho, Bool.false_eq_true, if_false, hdr, Option.isSome_some, if_true, hcol]
           have hout : mockGo cls meth .scan (l :: (P ++ C :: rest)) =
               stripWs l :: (P.map stripWs ++ stripWs C ::
-                mockBody cls meth (txtHasSub kAsyncIterator (joinWith [' '] (stripWs l :: P.map stripWs ++ [stripWs C])))) := by
+                mockBody cls meth (returnsAsyncIter ((stripWs l :: P.map stripWs ++ [stripWs C]).getLast?.getD []))) := by
             simp only [mockGo, ho, Bool.false_eq_true, if_false, ha, Bool.true_or, if_true, hcol, Bool.true_and]
             simp
           have hPs : ∀ p ∈ P.map stripWs, Stripped p := by
@@ -653,7 +648,7 @@ theorem mock_go (cls meth : Str) (m : List Str) : ∀ b : Bool, wfGo b m = true 
             intro p hp; obtain ⟨q, hq, rfl⟩ := List.mem_map.1 hp; exact (hP q hq).2
           rw [hout, hlines]
           constructor
-          · generalize mockBody cls meth (txtHasSub kAsyncIterator (joinWith [' '] (stripWs l :: P.map stripWs ++ [stripWs C]))) = B
+          · generalize mockBody cls meth (returnsAsyncIter ((stripWs l :: P.map stripWs ++ [stripWs C]).getLast?.getD [])) = B
             have hsg := sigGo_header (stripWs l) name true (P.map stripWs) (stripWs C) B
               (stripped_stripWs l) ho' hdr hPs hPp (stripped_stripWs C) hC2
             simp only [List.cons_append] at hsg
@@ -661,7 +656,7 @@ theorem mock_go (cls meth : Str) (m : List Str) : ∀ b : Bool, wfGo b m = true 
             simp only [sigGo, ho, Bool.false_eq_true, if_false, hdr, sigAfterHeader, List.isEmpty_nil, if_true]
             rw [sigParams_split [] false P C rest (fun p hp => (hP p hp).2) hC2]
             simp [Option.map_map, Function.comp_def]
-          · generalize mockBody cls meth (txtHasSub kAsyncIterator (joinWith [' '] (stripWs l :: P.map stripWs ++ [stripWs C]))) = B
+          · generalize mockBody cls meth (returnsAsyncIter ((stripWs l :: P.map stripWs ++ [stripWs C]).getLast?.getD [])) = B
             have hb : bodyGo false (stripWs l :: (P.map stripWs ++ stripWs C :: B)) =
                 bodyAfterSig (stripWs l :: (P.map stripWs ++ stripWs C :: B)) := by
               simp only [bodyGo, stripWs_idem, ho, Bool.false_eq_true, if_false, hdr, Option.isSome_some, if_true]
@@ -763,5 +758,54 @@ theorem mockBody_yields (cls meth : Str) (g : Bool) :
   rw [List.map_append, List.map_append, List.append_assoc, skipDoc_mockDoc]
   have hy : isYieldLine (kIndent4 ++ mockYield) = true := by decide
   cases g <;> simp [isYieldLine_mockRaise, hy]
+
+/-- Both transformers take the same decision on a well-formed method text: the mock's `is_async_generator` is
+    "the return annotation `sigOf` reads is `AsyncIterator[...]`" — the Protocol stub's criterion (`adjAsync`). -/
+theorem wf_mockYields (m : List Str) : ∀ b : Bool, wfGo b m = true →
+    ∃ sg, sigGo b m = some sg ∧ returnsAsyncIter ((sigLinesGo b m).getLast?.getD []) = retIsAsyncIter sg.ret := by
+  induction m with
+  | nil => intro b h; simp [wfGo] at h
+  | cons l ls ih =>
+    intro b h
+    cases b with
+    | true =>
+      unfold wfGo at h
+      by_cases he : endsStub (stripWs l) = true
+      · simp only [he, if_true] at h
+        simp only [sigGo, sigLinesGo, he, if_true]; exact ih false h
+      · simp only [he, Bool.false_eq_true, if_false] at h
+        simp only [sigGo, sigLinesGo, he, Bool.false_eq_true, if_false]; exact ih true h
+    | false =>
+      unfold wfGo at h
+      by_cases ho : isOvlLine (stripWs l) = true
+      · simp only [ho, if_true] at h
+        simp only [sigGo, sigLinesGo, ho, if_true]; exact ih true h
+      · simp only [ho, Bool.false_eq_true, if_false] at h
+        by_cases ha : isAsyncHdr (stripWs l) = true
+        · simp only [ha, if_true] at h
+          obtain ⟨name, hdr, hnc, hwp, hasync⟩ := wf_header (stripWs l) ls ha h
+          obtain ⟨P, C, rest, rfl, hP, hC1, hC2, hC3⟩ := wfParams_split ls hwp
+          obtain ⟨x, hx⟩ := closeLine_shape (stripWs C) hC1 hC2
+          have hQ : ∀ q ∈ l :: P, endsColon (stripWs q) = false := by
+            intro q hq
+            rcases List.mem_cons.1 hq with rfl | hq
+            · exact hnc
+            · exact (hP q hq).1
+          have hcol : mockCollect (l :: (P ++ C :: rest)) = (stripWs l :: P.map stripWs ++ [stripWs C], true) := by
+            have := mockCollect_split (l :: P) C rest hQ hC1
+            simpa using this
+          have hlines : sigLinesGo false (l :: (P ++ C :: rest)) = stripWs l :: P.map stripWs ++ [stripWs C] := by
+            simp only [sigLinesGo, ho, Bool.false_eq_true, if_false, hdr, Option.isSome_some, if_true, hcol]
+          have hlast : (stripWs l :: P.map stripWs ++ [stripWs C]).getLast? = some (stripWs C) := by
+            exact List.getLast?_concat
+          obtain ⟨r, hr⟩ := Option.isSome_iff_exists.1 hC3
+          refine ⟨⟨true, name, (paramsFold [] false (P.map stripWs)).1.reverse, r, true⟩, ?_, ?_⟩
+          · simp only [sigGo, ho, Bool.false_eq_true, if_false, hdr, sigAfterHeader, List.isEmpty_nil, if_true]
+            rw [sigParams_split [] false P C rest (fun p hp => (hP p hp).2) hC2, hr]
+            rfl
+          · rw [hlines, hlast, Option.getD_some, hx]
+            exact returnsAsyncIter_closeLine x r (hx ▸ hr)
+        · simp only [ha, Bool.false_eq_true, if_false, Bool.and_eq_true, Option.isNone_iff_eq_none] at h
+          simp only [sigGo, sigLinesGo, ho, Bool.false_eq_true, if_false, h.1]; exact ih false h.2
 
 end Pog
